@@ -58,14 +58,48 @@ class _Linalg:
         return _sqrt(tot)
 
     def inv(self, m):
+        """exact inverse: 3x3 by cofactors; 6x6 block lower-triangular [[A,0],[B,A']] (what utils.matrix.expand builds)"""
         if self.inv_hook is not None:
             return self.inv_hook(m)
-        raise NotImplementedError("np.linalg.inv on symbolic matrix (no contract stub installed)")
+        m = _np.asarray(m, dtype=object)
+        if m.shape == (3, 3):
+            return inv3(m)
+        if m.shape == (6, 6) and all(_is_zero(x) for x in m[:3, 3:].flat):
+            a, b, d = m[:3, :3], m[3:, :3], m[3:, 3:]
+            ai, di = inv3(a), inv3(d)
+            out = _np.empty((6, 6), dtype=object)
+            out[...] = 0
+            out[:3, :3] = ai
+            out[3:, 3:] = di
+            if not all(_is_zero(x) for x in b.flat):
+                out[3:, :3] = -(di @ b @ ai)
+            return out
+        raise NotImplementedError("np.linalg.inv on a symbolic matrix of shape %r" % (m.shape,))
 
     @staticmethod
     def det(m):
         assert m.shape == (3, 3)
         return det3(m)
+
+
+def _is_zero(x):
+    if isinstance(x, R):
+        return x.coef == 0
+    if isinstance(x, Dual):
+        return x.v.coef == 0 and x.d.coef == 0
+    return x == 0
+
+
+def inv3(m):
+    d = det3(m)
+    c = _np.empty((3, 3), dtype=object)
+    for i in range(3):
+        for j in range(3):
+            r = [k for k in range(3) if k != i]
+            q = [k for k in range(3) if k != j]
+            minor = m[r[0]][q[0]] * m[r[1]][q[1]] - m[r[0]][q[1]] * m[r[1]][q[0]]
+            c[j, i] = (minor if (i + j) % 2 == 0 else -minor) / d
+    return c
 
 
 def _sqrt(v):
